@@ -626,7 +626,7 @@ func genInner(r *hx.Rng, kind string, style int, bare bool) (plantExpr, string) 
 			return plantExpr{lead + fill + "'zzq" + tail, "'zzq", deltaEnd}, v
 		}
 	case "parser":
-		vs := []string{"dot-end", "two", "open-paren", "close-paren", "open-bracket", "comma", "and-end", "call-open"}
+		vs := []string{"dot-end", "two", "open-paren", "close-paren", "open-bracket", "comma", "and-end", "call-open", "unexpected-close", "unexpected-comma", "unexpected-op"}
 		v := vs[r.Intn(len(vs))]
 		w := ws(r)
 		switch v {
@@ -644,6 +644,13 @@ func genInner(r *hx.Rng, kind string, style int, bare bool) (plantExpr, string) 
 			return mk("zzq , 1", "zzq , 1", 4), v
 		case "and-end":
 			return plantExpr{lead + fill + "zzq &&" + w, "zzq &&" + w + "}}", 6 + len(w)}, v
+		case "unexpected-close":
+			// a token that cannot start an operand, with more tokens behind it
+			return mk("zzq == ) || 1", "zzq == ) || 1", 7), v
+		case "unexpected-comma":
+			return mk("zzq(, 1) && true", "zzq(, 1) && true", 4), v
+		case "unexpected-op":
+			return mk("(zzq && || 2)", "(zzq && || 2)", 8), v
 		default:
 			return plantExpr{lead + fill + "zzq(1" + w, "zzq(1" + w + "}}", 5 + len(w)}, v
 		}
@@ -1485,10 +1492,22 @@ func shifts(r *hx.Rng, s Spec) []struct {
 					site = es
 				}
 			}
+			// k BLANKS between the opening quote and a value that is one placeholder (the forms that read
+			// the value as ONE expression trim it before they look at it)
+			if s.Style != 0 && strings.HasPrefix(s.Text, "${{") && s.Prop == "" {
+				d := s
+				d.Pad = s.Pad + strings.Repeat(" ", k)
+				out = append(out, struct {
+					what   string
+					dl, dc int
+					spec   Spec
+				}{"cols-inner-blanks", 0, k, d})
+			}
 			if !site.oneOnly {
 				d := s
-				d.Pad = filler(r, s.Style, k, true)
-				if len(d.Pad) == k && !strings.HasSuffix(d.Pad, " ") && !strings.ContainsAny(d.Pad[len(d.Pad)-1:], "${}") {
+				fl := filler(r, s.Style, k, true)
+				d.Pad = fl + s.Pad
+				if len(fl) == k && !strings.HasSuffix(fl, " ") && !strings.ContainsAny(fl[len(fl)-1:], "${}") {
 					out = append(out, struct {
 						what   string
 						dl, dc int
@@ -1733,6 +1752,13 @@ func main() {
 		var s Spec
 		c := r.Intn(100)
 		switch {
+		case i < 8:
+			// a quoted value that is ONE placeholder with blanks between the quote and `${{`, at a site
+			// that may be given by one expression (read through mayParseExpression)
+			s = genExprSpec(r, i)
+			s.Site, s.Style, s.Flow, s.IfBare, s.Gap = "job.runs-on", 1+i%2, false, false, 0
+			s.Pad = strings.Repeat(" ", 1+i/2)
+			s.Text, s.Marker, s.Delta, s.Kind, s.Variant, s.TmplOff = "${{ zzq }}", "zzq", 0, "undef", "blank-pad", 0
 		case c < 62:
 			s = genExprSpec(r, i)
 		case c < 72:
